@@ -105,7 +105,9 @@ def _skeleton(ctx, K, nh, nl, nb, ns, ne, order="file"):
     elif order == "interleaved":
         objs = objs[nh:] + objs[:nh]
         tps = tps[nb:] + tps[:nb]
-    text = HEAD % dict(preview=tk(ctx.int("preview", -1, 100000)), title="Some Title", version="Hard", keys=K, samples="\n".join(evs), timing="\n".join(tps), objects="\n".join(objs))
+    # sample events: one block / a blank line after the section comment / groups separated by blank and comment lines
+    ev_text = "\n".join(evs) if order == "file" else ("\n" + "\n".join(evs) if order == "reversed" else "\n\n//second group\n".join(evs))
+    text = HEAD % dict(preview=tk(ctx.int("preview", -1, 10**8)), title="Some Title", version="Hard", keys=K, samples=ev_text, timing="\n".join(tps), objects="\n".join(objs))
     return text.split("\n"), spec
 
 
@@ -259,7 +261,7 @@ def _chart(ctx, K, nh, nl, nb, ns, ne, perm=False):
     m.title, m.title_unicode, m.artist, m.artist_unicode, m.creator, m.version, m.source = "Ti tle", "Ti tle", "Art", "Art", "me", "Insane", "src"
     m.tags = ["x", "y"]
     m.audio_file_name, m.background_file_name = "a.mp3", "bg.png"
-    m.preview_time = ctx.int("preview", -1, 100000)
+    m.preview_time = ctx.int("preview", -1, 10**8)
     m.beatmap_id, m.beatmap_set_id = 5, 6
     return m
 
@@ -337,6 +339,12 @@ def obligations(tier, seed):
             for order in (("file", "reversed") if (si < 2 or not quick) else ("interleaved",)):
                 obs.append(Obligation("C01/read/K%d/%s/%s" % (K, "-".join(map(str, sh)), order), partial(ob_read, K, sh, order),
                                       bound="OsuMap.read of a v14 text, " + B % ((K,) + sh) + "; lines in %s order" % order, max_paths=6000, timeout_s=300))
+            if K == 4 and si == 0:
+                for order in ("file", "reversed", "interleaved"):
+                    sh3 = (1, 0, 1, 0, 3)
+                    obs.append(Obligation("C01/read/K%d/%s/%s" % (K, "-".join(map(str, sh3)), order), partial(ob_read, K, sh3, order),
+                                          bound="OsuMap.read of a v14 text, " + B % ((K,) + sh3) + "; lines in %s order (sample events in one block / after a blank line / in groups separated by blank and comment lines)" % order,
+                                          max_paths=6000, timeout_s=300))
             for perm in (False, True):
                 if quick and perm and si > 1:
                     continue
@@ -350,8 +358,8 @@ def obligations(tier, seed):
     conds = ["read_version", "roundtrip_creator"] if quick else ["read_title", "read_version", "read_creator", "read_source", "read_artist_unicode", "read_audio",
                                                                 "roundtrip_version", "roundtrip_creator", "roundtrip_title_unicode", "roundtrip_source"]
     for fn in conds:
-        obs.append(Obligation("C01/text/%s" % fn, chrun.run, kind="ch", params=dict(module="ch.osu_meta", func=fn, timeout=20 if quick else 60),
-                              bound="CrossHair: %s with a symbolic str of length <= 4 (no line breaks), %d s" % (fn, 20 if quick else 60), timeout_s=200,
+        obs.append(Obligation("C01/text/%s" % fn, chrun.run, kind="ch", params=dict(module="ch.osu_meta", func=fn, timeout=45 if quick else 120),
+                              bound="CrossHair: %s with a symbolic str of length <= 4 (no line breaks), %d s" % (fn, 45 if quick else 120), timeout_s=200,
                               assumptions=["engine CH: CrossHair 0.0.110 executes OsuMapMeta._read_meta_string_list / write_meta_string_list on a symbolic str; 'Not confirmed' within the time limit is inconclusive"]))
     keys = ("Title", "Version", "Creator", "Source", "AudioFilename", "TitleUnicode") if quick else ("Title", "TitleUnicode", "Artist", "ArtistUnicode", "Creator", "Version", "Source", "AudioFilename")
     for key in keys:
